@@ -98,6 +98,9 @@ func (e *Engine) intrinsic(st *State, fr *Frame, x *ssa.Call, callee *ssa.Functi
 		fits := ti.inRange(from)
 		er := e.newErr(st, nil).(VErr)
 		return []Val{VInt{Ite(fits, from, Zero)}, VErr{Ite(fits, Zero, er.Id)}}, true
+	case "strconv.Itoa":
+		e.Assumptions["strconv.Itoa: an injective function of the integer (contents of the decimal string not modelled)"] = true
+		return []Val{itoaString(args[0].(VInt).T)}, true
 	case "time.Now":
 		t := e.fresh("now", IntS)
 		return []Val{VTime{t}}, true
@@ -575,3 +578,18 @@ func (e *Engine) lookupTimeType() types.Type {
 	}
 	return nil
 }
+
+// itoaString: the string strconv.Itoa(x) as an uninterpreted function of x (object id and length).
+func itoaString(x *Term) VString {
+	return VString{App("itoa$obj", IntS, x), Zero, App("itoa$len", IntS, x)}
+}
+
+// itoaEq: strconv.Itoa is injective, so two of its results are equal exactly when the integers are.
+func itoaEq(a, b VString) (*Term, bool) {
+	if a.Obj.Op == "app" && a.Obj.Name == "itoa$obj" && b.Obj.Op == "app" && b.Obj.Name == "itoa$obj" && isZeroT(a.Off) && isZeroT(b.Off) {
+		return Eq(a.Obj.Args[0], b.Obj.Args[0]), true
+	}
+	return nil, false
+}
+
+func isZeroT(t *Term) bool { return t.IsConst() && t.N.Sign() == 0 }
